@@ -47,20 +47,21 @@ def cases(tier, seed):
                                                           gen.binnify([490, 196], 49), gen.binnify([515], 103)]
     n1 = 700 if tier == "quick" else 12000
     for h in range(n1):
-        table = tables[h % len(tables)]
-        one_based = h % 2 == 0
-        tril = ["reflect", "drop", "none"][h % 3]
-        bad = h % 4 == 3
-        many = h % 6 == 1 and not bad                                       # enough chunks for the two-pass merge
+        f = gen.feat(1, h)                                                   # independent feature choices (see gen.feat)
+        table = tables[f("table", len(tables))]
+        one_based = f("one_based", 2) == 0
+        tril = ["reflect", "drop", "none"][f("tril", 3)]
+        bad = f("bad", 4) == 3
+        many = f("many", 6) == 1 and not bad                                       # enough chunks for the two-pass merge
         recs = mk_records(rng, table, (rng.randint(1, 8) if not many else rng.randint(9, 16)) if not bad else rng.randint(1, 3),
                           allow_bad=bad)
         if one_based:
             recs = [[r[0], r[1] + 1, r[2], r[3] + 1] for r in recs]          # positions as written in a 1-based file
-        via = "api" if h % 5 else "cload"
+        via = "api" if f("via", 5) else "cload"
         yield "ig.records", {"table": table, "recs": recs, "one_based": one_based, "tril": tril, "valued": False,
                              "via": via, "chunk": rng.choice([1, 2, 3, 1000]) if not many else rng.choice([1, 2]),
-                             "header": h % 10 == 0, **({"max_merge": rng.choice([2, 3, 4])} if many else {}),
-                             "labels": ["default", "offset", "perm"][h % 3], "pos_dtype": ["int64", "int32"][h % 2]}
+                             "header": f("header", 10) == 0, **({"max_merge": rng.choice([2, 3, 4])} if many else {}),
+                             "labels": ["default", "offset", "perm"][f("labels", 3)], "pos_dtype": ["int64", "int32"][f("posdt", 2)]}
     # single records on every interesting position (both anchors), every option: the boundary cases of the property
     for table in tables[:6] if tier == "quick" else tables:
         nch = 1 + max(t[0] for t in table)
@@ -73,11 +74,12 @@ def cases(tier, seed):
                                          "chunk": 1000, "header": False}
     # bedGraph-2D (valued, anchor = start) and COO
     for h in range(260 if tier == "quick" else 4000):
-        table = tables[h % len(tables)]
-        one_based = h % 2 == 1
-        tril = ["reflect", "drop", "none"][h % 3]
-        bad = h % 5 == 4
-        via = "api" if h % 3 else "load"
+        f = gen.feat(2, h)
+        table = tables[f("table", len(tables))]
+        one_based = f("one_based", 2) == 1
+        tril = ["reflect", "drop", "none"][f("tril", 3)]
+        bad = f("bad", 5) == 4
+        via = "load" if f("via", 3) == 0 else "api"
         recs = [r + [rng.randint(1, 5)] for r in mk_records(rng, table, rng.randint(1, 7), allow_bad=bad)]
         if via == "load":
             # a bedGraph-2D FILE lists every pixel once (cooler load refuses a pixel repeated within a chunk): anchors are
@@ -99,16 +101,17 @@ def cases(tier, seed):
         if one_based:
             recs = [[r[0], r[1] + 1, r[2], r[3] + 1, r[4]] for r in recs]
         yield "ig.bg2", {"table": table, "recs": recs, "one_based": one_based, "tril": tril, "valued": True,
-                         "via": via, "chunk": rng.choice([1, 2, 1000])}
+                         "via": via, "chunk": rng.choice([1, 2, 3, 4, 1000]), "mergebuf": rng.choice([0, 0, 1, 2])}
     for h in range(200 if tier == "quick" else 3000):
-        table = tables[h % len(tables)]
+        f = gen.feat(3, h)
+        table = tables[f("table", len(tables))]
         n = len(table)
-        one_based = h % 2 == 1
-        tril = ["reflect", "drop", "none"][h % 3]
-        bad = h % 6 == 5
+        one_based = f("one_based", 2) == 1
+        tril = ["reflect", "drop", "none"][f("tril", 3)]
+        bad = f("bad", 6) == 5
         lo, hi = (-1, n) if bad else (0, n - 1)
-        via = "api" if h % 3 else "load"
-        px = [[rng.randint(lo, hi), rng.randint(lo, hi), rng.randint(1, 5)] for _ in range(rng.randint(1, 7))]
+        via = "load" if f("via", 3) == 0 else "api"
+        px = [[rng.randint(lo, hi), rng.randint(lo, hi), rng.randint(1, 5)] for _ in range(rng.randint(1, 7) if f("many", 4) else rng.randint(8, 14))]
         if via == "load":                      # a COO file lists every pixel once
             seen, uniq = set(), []
             for p in px:
@@ -119,16 +122,27 @@ def cases(tier, seed):
             px = uniq
         if one_based:
             px = [[p[0] + 1, p[1] + 1, p[2]] for p in px]
-        yield "ig.coo", {"table": table, "px": px, "one_based": one_based, "tril": tril,
-                         "via": via, "chunk": rng.choice([1, 2, 1000])}
+        case = {"table": table, "px": px, "one_based": one_based, "tril": tril,
+                "via": via, "chunk": rng.choice([1, 2, 3, 4, 6, 1000]), "mergebuf": rng.choice([0, 0, 1, 2, 3])}
+        if via == "load" and tril == "drop" and not bad:
+            # a file listing both triangles in no particular order, read in chunks of several records, merged in several epochs
+            pos = [(i, j) for i in range(n) for j in range(n)]
+            rng.shuffle(pos)
+            case["px"] = [[i + one_based, j + one_based, rng.randint(1, 5)] for i, j in pos[:rng.randint(8, min(16, len(pos)))]] \
+                if len(pos) >= 8 else case["px"]
+            seen = set()
+            case["px"] = [p for p in case["px"] if not (tuple(sorted(p[:2])) in seen or seen.add(tuple(sorted(p[:2]))))]
+            case.update({"chunk": rng.choice([3, 4, 5]), "mergebuf": rng.choice([1, 2])})
+        yield "ig.coo", case
     # tabix-indexed loader: sorted, upper-triangle, 1-based pairs
     ttables = tables + [gen.binnify([12, 7], 1), gen.binnify([20], 2), gen.table_from_edges([[0, 1, 3, 4, 8, 9, 11, 12], [0, 2, 3, 6]])]
     for h in range(60 if tier == "quick" else 600):
-        table = ttables[h % len(ttables)]
-        bad = h % 6 == 5
-        recs = mk_records(rng, table, rng.randint(1, 8) if h % 2 else rng.randint(8, 30), allow_bad=False, unknown_rate=0.0)
+        f = gen.feat(4, h)
+        table = ttables[f("table", len(ttables))]
+        bad = f("bad", 6) == 5
+        recs = mk_records(rng, table, rng.randint(1, 8) if f("few", 2) else rng.randint(8, 30), allow_bad=False, unknown_rate=0.0)
         recs = [r if (r[0], r[1]) <= (r[2], r[3]) else [r[2], r[3], r[0], r[1]] for r in recs]
-        if h % 2 == 0:
+        if f("unknown_mates", 2) == 0:
             # mates on chromosomes that are not in the bin table, several in a row (they must simply be dropped)
             extra = []
             for r in rng.sample(recs, min(len(recs), 3)):
